@@ -500,9 +500,13 @@ pub struct BuiltObject {
 static TMP_SEQ: std::sync::atomic::AtomicU64 = std::sync::atomic::AtomicU64::new(0);
 
 pub fn sandbox_dir() -> std::path::PathBuf {
-    let d = crate::report::verif_root().join("harness").join("target").join("sandbox");
-    std::fs::create_dir_all(&d).ok();
-    d
+    static DIR: std::sync::OnceLock<std::path::PathBuf> = std::sync::OnceLock::new();
+    DIR.get_or_init(|| {
+        let d = crate::report::verif_root().join("harness").join("target").join("sandbox");
+        std::fs::create_dir_all(&d).ok();
+        d
+    })
+    .clone()
 }
 
 pub fn build_object(o: &ObjSpec) -> Result<BuiltObject, String> {
